@@ -40,13 +40,20 @@ open Gomjml.LayoutLeaves in
 theorem C03_components (d : Doc) : MsoWF d.render := (doc_spec d).2.1
 
 open Gomjml.Leaves Gomjml.Expand in
-/-- the Outlook cells of a horizontal social bar: with a cell open, the loop over ANY list of elements leaves exactly that cell open -/
-theorem C03_social_loop (els : List SocEl) : ∀ st, runE msoStep ⟨0, "td" :: st⟩ (socLoop els) = .ok ⟨0, "td" :: st⟩ :=
-  fun st => by simpa using socLoop_moves (step := msoStep) (Or.inr (Or.inl rfl)) els st
+/-- the Outlook cells of a horizontal social bar: with a cell open, the loop over ANY list of children (elements, raw content) leaves exactly that cell open -/
+theorem C03_social_loop (kids : List SocChild) (rem : Nat) : ∀ st, runE msoStep ⟨0, "td" :: st⟩ (socLoop rem kids) = .ok ⟨0, "td" :: st⟩ :=
+  fun st => by simpa using socLoop_moves (step := msoStep) (Or.inr (Or.inl rfl)) kids rem st
 
 open Gomjml.Leaves Gomjml.Expand in
 /-- the same for the links of a navbar behind the first -/
-theorem C03_navbar_loop (links : List Bool) : ∀ st, runE msoStep ⟨0, "td" :: st⟩ (navLoop false links) = .ok ⟨0, "td" :: st⟩ :=
-  fun st => by simpa using navLoop_moves (step := msoStep) (Or.inr (Or.inl rfl)) links st
+theorem C03_navbar_loop (kids : List NavChild) : ∀ st, runE msoStep ⟨0, "td" :: st⟩ (navLoop false false kids) = .ok ⟨0, "td" :: st⟩ :=
+  fun st => by simpa using navLoop_moves (step := msoStep) (Or.inr (Or.inl rfl)) kids st
+
+open Gomjml.Leaves Gomjml.Expand in
+/-- … and in front of the first link, once raw content has closed the opening conditional: a cell is open afterwards exactly
+    when there was a link -/
+theorem C03_navbar_first (kids : List NavChild) :
+    ∀ st, runE msoStep ⟨0, st⟩ (navLoop false true kids) = .ok ⟨0, (if kids.any NavChild.isLink then ["td"] else []) ++ st⟩ :=
+  fun st => by simpa using navLoop_first_mso kids st
 
 end Gomjml.Props.C03
